@@ -301,6 +301,7 @@ func runC12(w *vx.W) {
 		mixLen = 4
 	}
 	mixFamily(w, mixLen)
+	mixLongRuns(w, []int{1, 3})
 	c10MixChains(w) // the same words as members of a chain: nothing may cross a file boundary
 	c12LocalSweep(w)
 	tzFamily(w, "C12")
